@@ -36,6 +36,15 @@ Definition wstep (w : writer) (o : wop) : writer :=
 Definition writer_run (blocked : bool) (ops : list wop) : writer := fold_left wstep ops (winit fempty blocked).
 Definition file_of (w : writer) : bytes := fdata (ofile (wout w)).
 
+(* histories in which the caller also uses the wrapped file object between finalisations (f.seek(p), or reading from
+   it, which moves its position): the writer itself is not told *)
+Definition otouch (o : outfile) (p : nat) : outfile :=
+  match o with OPlain f => OPlain (fseek f p) | OBlocked s => OBlocked (mkb (fseek (bfile s) p) (brem s)) end.
+Inductive wop2 := W2Op (o : wop) | W2Touch (p : nat).
+Definition wstep2 (w : writer) (o : wop2) : writer :=
+  match o with W2Op o => wstep w o | W2Touch p => mkw (otouch (wout w) p) (wfinalised w) end.
+Definition writer_run2 (blocked : bool) (ops : list wop2) : writer := fold_left wstep2 ops (winit fempty blocked).
+
 (* vbs_list_to_bytes(records, blocked=...): write all, close, file_out.read() *)
 Definition vbs_list_to_bytes (blocked : bool) (rs : list bytes) : bytes :=
   let w := writer_run blocked (map WWrite rs ++ [WClose]) in
